@@ -695,3 +695,32 @@ def dict_choice(fi, e):
             if set(m) == {True, False}:
                 return ast.IfExp(test=e.slice, body=m[True], orelse=m[False])
     return e
+
+
+def guard_clause_nesting(stmts):
+    """(on a clone) `if c: <...; break|continue|return|raise>` followed by more statements -> the rest moves into the else branch,
+    recursively, so that decision paths see the jump as the end of its branch."""
+    from ..index import clone
+    stmts = [clone(s) for s in stmts]
+
+    def ends_in_jump(body):
+        return bool(body) and (isinstance(body[-1], (ast.Break, ast.Continue, ast.Return, ast.Raise))
+                               or (isinstance(body[-1], ast.If) and body[-1].orelse and ends_in_jump(body[-1].body) and ends_in_jump(body[-1].orelse)))
+
+    def go(block):
+        out = []
+        for k, s in enumerate(block):
+            for field in ('body', 'orelse'):
+                sub = getattr(s, field, None)
+                if isinstance(s, (ast.If, ast.For, ast.While, ast.With)) and isinstance(sub, list) and sub:
+                    setattr(s, field, go(sub))
+            if isinstance(s, ast.If) and not s.orelse and ends_in_jump(s.body) and k + 1 < len(block):
+                s.orelse = go(block[k + 1:])
+                out.append(s)
+                return out
+            out.append(s)
+        return out
+    res = go(stmts)
+    for s in res:
+        ast.fix_missing_locations(s)
+    return res
